@@ -4,9 +4,9 @@ H = 'checks.hC12'
 
 def plan(tier, seed):
     quick = tier == 'quick'
-    names = ['sites5', 'multiline', 'crlf', 'cr', 'crlf-xml', 'same-text-twice', 'column-zero', 'guards', 'replace-switch', 'string-structure', 'macro-chain',
+    names = ['sites5', 'multiline', 'crlf', 'cr', 'crlf-xml', 'same-text-twice', 'entity-in-expression', 'column-zero', 'guards', 'replace-switch', 'string-structure', 'macro-chain',
              'macro-chain-composite', 'same-name-cached', 'inline-macro', 'recursive-macro', 'recursive-render', 'after-handled-macro-failure', 'filler-failure']
-    jobs = [{'template': n} for n in names]
+    jobs = [{'template': n, 'label': n} for n in names]
     fam = dict(name='render_error_sites', module=H, fn='H', jobs=jobs, timeout=600 if quick else 1800, vacuity=2,
                program_key='template',
                mutants=[{'name': 'wrap_base', 'cfg': {'template': 'sites5'}},
@@ -23,7 +23,7 @@ def plan(tier, seed):
                 'forms, two sites with same-named identical files compiled through one on-disk module cache, a template rendering itself from an expression, a failure inside a slot filler, load:/use-macro chains over three files with plain and composite (computed name, fallback alternative) macro expressions); the solver ranges over the failing point, 8 '
                 'exception classes (builtin, custom with extra constructor arguments, custom __str__, RecursionError, '
                 'a non-Exception BaseException) and an unbounded integer constructor argument. Outside: '
-                'entities inside the failing expression, on-error interplay (observed divergences '
+                'on-error interplay (observed divergences '
                 'reported by the seeding sub-agent, not part of this claim), real KeyboardInterrupt/SystemExit '
                 '(a private BaseException subclass stands for them).' % len(jobs)),
         assumptions=['expected (expression text, line, column) computed by the harness from the template text it wrote',
